@@ -203,6 +203,7 @@ impl RefLc3 {
                     self.kb.q.extend(b.iter().copied())
                 }
             }
+            HostEv::ClearKeys => self.kb.q.clear(),
             HostEv::DrainDisplay => {
                 if self.disp.present {
                     let o = std::mem::take(&mut self.disp.out);
